@@ -14,7 +14,7 @@ PROP = {
     ],
     "streams": [
         {"name": "args", "driver": "drv_args",
-         "quick": {"n": 2500}, "thorough": {"n": 40000, "seeds": 4}},
+         "quick": {"n": 2800}, "thorough": {"n": 40000, "seeds": 4}},
     ],
     "exhaustive": False,
     "technique": "Lean 4 proof over a code-shaped port of importValidatedArguments / valueImporter + correspondence stream through the real runtime (both engines)",
@@ -30,7 +30,8 @@ PROP = {
                   "array size) / non-importable (resource, event, contract, function, capability) / undecodable JSON-CDC arguments, run "
                   "through runtime.ExecuteScript in both engines against a deployed contract; the script returns getType(), "
                   "isSubtype(of: T) and the argument itself; the driver compares acceptance, rejection stage, run-time type and the "
-                  "exported value with the model, and judges Go's own output against the spec (user-error class; reported type a subtype "
+                  "exported value with the model, and judges Go's own output against the spec (user-error class; an accepted argument has no surviving composite whose "
+                  "kind tag differs from its declaration's kind (Spec.Import.kindClash, judged on the encoded argument); reported type a subtype "
                   "by Go's and by the Lean relation; exported value importable and conforming at every depth) independently of the model's import.",
     "level_note": "Partial: the second sentence of the property (script results export to values that round-trip through JSON-CDC and "
                   "CCF) is a stated comment (export_roundtrips), exercised on the Go side only. Value algebra: numbers of all integer kinds, "
